@@ -50,7 +50,7 @@ def run(chk):
 def _numbering_generator_form(chk, mfd, it_):
     """MultiFrameData.__iter__ written as a generator: every yielded FrameData is numbered by one enumeration,
     starting at 1, of the row generator over *all* rows (a numbering that restarts per chunk is refuted)."""
-    from ..terms import SELF, A, K, is_call, call_arg, contains, pp
+    from ..terms import SELF, A, K, is_call, call_arg, contains, pp, bound_arg
     su = chk.terms.inline(it_, 2)
     ys = [(pc, t, ctx) for pc, t, n, ctx in su.yields]
     chk.floor("frame data yields", len(ys), 1)
@@ -63,9 +63,9 @@ def _numbering_generator_form(chk, mfd, it_):
             el = ("elem", it, loops[0][1])
             rows = it[2][0] if is_call(it, "enumerate") and it[2] else None
             start = call_arg(it, 1, "start") if rows is not None else None
-            num, slots = call_arg(t, kw="frame_number"), call_arg(t, kw="slots")
+            num, slots = bound_arg(chk.terms, su, t, "frame_number"), bound_arg(chk.terms, su, t, "slots")
             ok = rows is not None and start == K(1) and is_call(rows, "make_chunked_generator") and \
-                num == ("sub", el, K(0)) and slots == ("sub", el, K(1)) and call_arg(t, kw="frame") == A(SELF, "_frame")
+                num == ("sub", el, K(0)) and slots == ("sub", el, K(1)) and bound_arg(chk.terms, su, t, "frame") == A(SELF, "_frame")
             detail = f"frame number `{pp(num) if num else '?'}` over `{pp(it)[:60]}`"
         chk.require(ok, "R03.1", "frame-number-counts-all-rows-from-1",
                     f"the records are not numbered 1..N over all rows of the frame in order ({detail})", it_.where)
@@ -101,14 +101,15 @@ def r03_1_numbering(chk):
         g.must_pass_through({inc}, ENTRY, EXIT, exceptional=False)
     chk.require(ok, "R03.1", "every-record-counts", "a record can be produced without incrementing the frame counter "
                 "(or the counter is incremented without producing a record)", nx.where)
-    from ..terms import SELF, A, K, is_call, call_arg, pp, return_alternatives, raise_conditions, contains
+    from ..terms import SELF, A, K, is_call, call_arg, pp, return_alternatives, raise_conditions, contains, bound_arg
     ns = chk.summary(nx)
     made = [t for _, t in return_alternatives(ns)]
-    ok = bool(made) and all(is_call(t, "FrameData") and call_arg(t, kw="frame_number") == A(SELF, counter) for t in made)
+    numbers = [bound_arg(chk.terms, ns, t, "frame_number") for t in made]
+    ok = bool(made) and all(is_call(t, "FrameData") and n_ == A(SELF, counter) for t, n_ in zip(made, numbers))
     chk.require(ok, "R03.1", "frame-number-is-the-counter",
-                f"the frame number written is `{[pp(call_arg(t, kw='frame_number') or t)[:40] for t in made]}`, not the "
+                f"the frame number written is `{[pp(n_ or t)[:40] for t, n_ in zip(made, numbers)]}`, not the "
                 f"counter", nx.where)
-    rows_taken = [call_arg(t, kw="slots") for t in made if is_call(t, "FrameData")]
+    rows_taken = [bound_arg(chk.terms, ns, t, "slots") for t in made if is_call(t, "FrameData")]
     ok = bool(rows_taken) and all(r is not None and is_call(r, "next", 1) and r[1] == ("global", "next") and
                                   r[2][0][0] == "attr" and r[2][0][1] == SELF for r in rows_taken)
     chk.require(ok, "R03.1", "one-row-per-record",
@@ -270,7 +271,8 @@ def r03_4_slot_order(chk):
     init = mfd.lookup("__init__")
     chk.consult(init)
     from ..terms import SELF, A, subterms, raise_conditions, pp
-    isum = chk.summary(init)
+    # (the comparison may sit in a helper of the same module)
+    isum = chk.terms.inline(init, 2, stop=lambda g: g.module is not init.module or g.name == "__init__")
     frame_p, data_p = ("param", "frame"), ("param", "data")
     chans = A(frame_p, "channels", "value")
 
@@ -282,13 +284,20 @@ def r03_4_slot_order(chk):
                 return True
         return False
     guard_idx = None
+    from ..terms import neg as _neg, literals as _literals
+    refusal = set()
+    for pc_, _t in raise_conditions(isum):
+        for c_ in pc_:
+            refusal.update(_literals(c_))
     for i, e in enumerate(isum.effects):
-        if e.kind != "raise" or len(e.pc) != 1 or e.ctx:
+        if e.kind != "raise" or e.ctx:
             continue
-        l = e.pc[0]
-        if l[0] == "cmp" and l[1] == "!=" and ((ordered_names(l[2]) and l[3] == A(data_p, "dtype", "names")) or
-                                               (ordered_names(l[3]) and l[2] == A(data_p, "dtype", "names"))):
-            guard_idx = i
+        for l in e.pc:
+            if l[0] == "cmp" and l[1] == "!=" and ((ordered_names(l[2]) and l[3] == A(data_p, "dtype", "names")) or
+                                                   (ordered_names(l[3]) and l[2] == A(data_p, "dtype", "names"))):
+                # nothing but earlier refusals having passed may stand beside the comparison
+                if all(o is l or _neg(o) in refusal for o in e.pc):
+                    guard_idx = i
     chk.require(guard_idx is not None, "R03.4", "guard-compares-ordered-names",
                 "no raise under `<the frame's channel names, in order> != <the chunk dtype's field names>`", init.where)
     stores = [(i, e) for i, e in enumerate(isum.effects) if e.kind == "store_attr" and e.base == SELF
